@@ -169,8 +169,33 @@ def run(ctx):
                              prior={"p0": pr}, initial_conditions={"A": 1.0})
         v = float(inf.cost_function([theta]))
         ctx.evaluated()
-        if math.isfinite(v) != want_finite:
+        if (math.isfinite(v) if want_finite else v == -math.inf) is False:
             ctx.violation("posterior/support/" + pr[0], "posterior at theta=%g under prior %s is %r" % (theta, pr, v), {"prior": pr, "theta": theta, "posterior": v})
+    # vectors: one component outside its support (rejected) together with components inside their support where the
+    # density is zero or underflows (log-density -inf): the posterior is minus infinity - not NaN, not finite
+    outside = [(["uniform", 0.0, 10.0], 11.0), (["log-uniform", 1.0, 10.0], 11.0), (["exponential", 1.0], -1.0), (["gamma", 3.0, 2.0], -1.0),
+               (["beta", 2.0, 3.0], 1.5), (["gaussian", 2.0, 1.0, "positive"], -0.5), (["log-gaussian", 0.0, 1.0], -1.0)]
+    zero = [(["beta", 2.0, 2.0], 0.0), (["beta", 2.0, 3.0], 1.0), (["gamma", 3.0, 2.0], 0.0), (["gaussian", 0.5, 0.01], 1.0),
+            (["exponential", 1.0], 800.0), (["uniform", 0.0, 2.0], 0.5)]
+    for io, (po, xo) in enumerate(outside):
+        for iz, (pz, xz) in enumerate(zero):
+            for order in (0, 1):
+                prs = {"p0": po, "p1": pz} if order == 0 else {"p0": pz, "p1": po}
+                theta = [xo, xz] if order == 0 else [xz, xo]
+                if (io + iz) % 3 == 0:                       # a third parameter well inside its support
+                    prs["p2"] = ["gaussian", 1.0, 1.0]
+                    theta = theta + [1.2]
+                case = {"priors": prs, "theta": theta}
+                ctx.begin_case(case)
+                inf = InferenceSetup(Model=M, exp_data=data, measurements=["A"], time_column="time", params_to_estimate=list(prs),
+                                     prior=prs, initial_conditions={"A": 1.0})
+                v = float(inf.cost_function(list(theta)))
+                ctx.evaluated()
+                if v != -math.inf:
+                    ctx.violation("posterior/support/vector", "posterior of a vector with a component outside its prior's support is %r, not -inf" % v,
+                                  dict(case, posterior=v))
+                    return
+                ctx.count("posterior_vectors_rejected")
 
 
 def replay(ctx, obj):
